@@ -5,12 +5,14 @@
 import UnifexModel.Driver.Entry
 import UnifexModel.Driver.Entries.StopSource
 import UnifexModel.Driver.Entries.Calc
+import UnifexModel.Driver.Entries.Io
 
 namespace Unifex.Driver
 
 def table : List ModelEntries :=
   [ Entries.stopsource
   , Entries.calcEntries
+  , Entries.remotequeue
   ]
 
 def lookup (m c : String) : Option Entry :=
